@@ -62,6 +62,7 @@ type Config struct {
 	// handed out BarrierAfterReads[i] read calls (the request then races with everything else).
 	Barriers          []uint64
 	BarrierAfterReads []int
+	OpLatency         time.Duration // virtual time one HandleEventBatch call of an operator takes
 	Horizon           time.Duration // virtual run time (default 450ms: two watermark ticks)
 }
 
@@ -161,12 +162,16 @@ type recOp struct {
 	idx int
 	obs *Obs
 	got chan struct{}
+	lat time.Duration
 }
 
 func (o *recOp) ID() string   { return fmt.Sprintf("op%d", o.idx) }
 func (o *recOp) Host() string { return "h" }
 func (o *recOp) HandleEventBatch(ctx context.Context, batch []*workerpb.Event) error {
 	shim.Point("operator-backpressure")
+	if o.lat > 0 {
+		defer shim.Sleep(o.lat) // the call returns after the operator's (virtual) processing time
+	}
 	complete := false
 	for _, ev := range batch {
 		switch e := ev.Event.(type) {
@@ -220,7 +225,7 @@ func Run(c *mc.Ctx, cfg *Config, opts schedh.Opts) *Obs {
 		completeCh := make(chan struct{}, cfg.Operators)
 		ops := make([]*recOp, cfg.Operators)
 		for i := range ops {
-			ops[i] = &recOp{idx: i, obs: obs, got: completeCh}
+			ops[i] = &recOp{idx: i, obs: obs, got: completeCh, lat: cfg.OpLatency}
 		}
 		barrierReq := make([]chan struct{}, len(cfg.Barriers))
 		for i := range barrierReq {
